@@ -192,6 +192,10 @@ pub fn run(thorough: bool) -> i32 {
     r.assumptions.push("field numbers of osmosis.tokenfactory.v1beta1 / miniwasm.tokenfactory.v1 Msg{CreateDenom,Mint,Burn} written from their .proto definitions; the simulated chain only routes the token-factory family of the build's target chain".into());
     constructor_grid(&mut r);
     instantiate_grid(&mut r);
+    // configuration validation is behaviour too: both builds must accept exactly the same configurations
+    let d = crate::config_grid::accept_reject_digest();
+    r.evaluations += d["cases"].as_u64().unwrap_or(0);
+    r.graph_digests.push(d);
     for p in plans(thorough) {
         let lim = Limits { max_depth: p.depth, max_states: 5_000_000, max_wall_s: if thorough { 2000.0 } else { 150.0 } };
         r.run_scenario(&p.sc, lim, &p.required);
